@@ -38,7 +38,9 @@ def analyse(wd):
         if len(si) > 1: res['finals'].add(si[-1])
         d = lbtool.first_diff(si, sm)
         if d is not None:
-            kind = 'impl-violates-spec' if (d < len(sm) and sm[d].startswith('SPEC-FAIL')) or (d < len(si) and si[d] == 'panic') else 'impl-model-differ'
+            # every field of a reply line is a stream-level observation (result bytes, Len of both buffers, what the
+            # scripted kernel received so far), and the model is the spec queue itself: a disagreement is a failing input
+            kind = 'impl-violates-spec'
             res['problems'].append((so[:d + 1], d, kind, 'op=%s | impl=%s | model=%s' % (so[min(d, len(so) - 1)], (si + [''])[d][:200], (sm + [''])[d][:200])))
         if len(res['samples']) < 2: res['samples'].append(' ; '.join(so[:20]))
     return res
